@@ -59,7 +59,10 @@ Converted(p) == [abs |-> p.abs, comps |-> [i \in 1..Len(p.comps) |-> Eff(p.comps
 Target == Converted(Clean(Join(Dest, [abs |-> FALSE, comps |-> EntryComps])))
 \* (a relative destination: what remains in front of the target after the destination's own components must not be a parent reference)
 Beyond(p, d) == LET cp == Clean(p) cd == Clean(d) IN Len(cp.comps) > Len(cd.comps) /\ cp.comps[Len(cd.comps) + 1] = ".."
-EntryEscapes == ~Inside(Target, Dest) \/ Beyond(Target, Dest)
+\* (judged on the joined path as cleaned - before the conversion: a component that only the conversion turns into ".." is not a
+\* parent reference of the cleaned path)
+RawTarget == Clean(Join(Dest, [abs |-> FALSE, comps |-> EntryComps]))
+EntryEscapes == ~Inside(Target, Dest) \/ Beyond(RawTarget, Dest)
 \* a nested archive "<stem>.zip" at path P is unpacked into Dir(P)/<stem>; its content lands beneath that
 NestedRoot == Join(Dir(Clean(Join(Dest, [abs |-> FALSE, comps |-> comps \o <<"X">>]))), [abs |-> FALSE, comps |-> <<RootName>>])
 NestedEscapes == kind = "nested" /\ ~Inside(NestedRoot, Dest)
